@@ -78,6 +78,7 @@ type FnCtx struct {
 	warnings []string
 	depth    int
 	wfSet    map[string]bool
+	topArgs  []Val
 	stack    []*ssa.Function
 }
 
